@@ -192,10 +192,11 @@ fn check_inner(env: &Env, case: &Case, st: &mut Stats) -> CaseResult {
             st.class("marked_approx");
         }
         if case.mode == Mode::Fraction {
-            // fraction mode prints n/d in decimal whatever the base
-            return match check_numeral(&text, 10, exact, &v) {
+            // a fraction is a numeral in the requested base like any other: numerator and
+            // denominator are written with that base's digits
+            return match check_numeral(&text, base, exact, &v) {
                 Ok(_) => Ok(()),
-                Err((sig, d)) => fail(env, st, &sig, case, d),
+                Err((sig, d)) => fail(env, st, &format!("fraction-{}", sig), case, d),
             };
         }
         match check_numeral(&text, base, exact, &v) {
@@ -245,11 +246,11 @@ fn check_inner(env: &Env, case: &Case, st: &mut Stats) -> CaseResult {
             }
         };
         let (parts, shown) = parts;
-        let nbase = if case.mode == Mode::Fraction { 10 } else { base };
+        let nbase = base;
         let mut nontrivial = false;
         if let Some(ex) = &parts.exact_value {
-            // "n/d" fractions are always decimal
-            let b = if ex.contains('/') { 10 } else { nbase };
+            // "n/d" fractions are numerals in the requested base too
+            let b = nbase;
             if ex.contains('[') || (ex.contains('e') && b < 15) {
                 nontrivial = true;
             }
@@ -453,7 +454,6 @@ pub fn run(cx: &Cx) -> Report {
     let mut rep = Report::new(RULE);
     rep.assumptions = vec![
         "in bases >= 15 the letter e is both a digit and the exponent marker: every grammatical reading is tried and one must satisfy the law".into(),
-        "Fraction mode prints n/d in decimal whatever the base (read as decimal)".into(),
         "Digits(n) is generated up to 2000 (larger counts are a resource question, see C04)".into(),
         "float-valued numbers are outside this property (always marked approximate)".into(),
     ];
